@@ -1,0 +1,45 @@
+//go:build verif
+
+// Contracts for property C08 (names are matched case-insensitively): the folding discipline.
+// Every map whose keys are names holds lower-cased keys only; every lookup and update on such a
+// map must prove that its key is lower-cased ("folded"). Verified by govc (see /verif/DESIGN.md).
+
+package actionlint
+
+//@ folded_keys map[string]ExprType
+//@ folded_keys map[string][]*FuncSignature
+//@ folded_keys map[string]*Job
+//@ folded_keys map[string]*Output
+//@ folded_keys map[string]*Input
+//@ folded_keys map[string]*EnvVar
+//@ folded_keys map[string]*MatrixRow
+//@ folded_keys map[string]*MatrixAssign
+//@ folded_keys map[string]RawYAMLValue
+//@ folded_keys map[string]*Service
+//@ folded_keys map[string]*DispatchInput
+//@ folded_keys map[string]*WorkflowCallEventSecret
+//@ folded_keys map[string]*WorkflowCallEventOutput
+//@ folded_keys map[string]*WorkflowCallInput
+//@ folded_keys map[string]*WorkflowCallSecret
+//@ folded_keys map[string]*jobNode
+//@ folded_keys map[string]*UntrustedInputMap
+//@ folded_keys UntrustedInputSearchRoots
+//@ folded_keys ActionMetadataInputs
+//@ folded_keys ActionMetadataOutputs
+//@ folded_keys ReusableWorkflowMetadataInputs
+//@ folded_keys ReusableWorkflowMetadataSecrets
+//@ folded_keys ReusableWorkflowMetadataOutputs
+
+// string fields and slices that hold lower-cased names
+//@ folded WorkflowCallEventInput.ID
+//@ folded_elems jobNode.needs
+
+//@ func (*RuleJobNeeds).VisitJobPre
+//@   loop "range n.Needs":
+//@     invariant [C08] forall j :: 0 <= j && j < len(needs) ==> folded(needs[j])
+
+// the untrusted-input trie is walked with lower-cased property names only
+//@ func (*UntrustedInputMap).findObjectProp
+//@   requires [C08 C11] folded(name)
+//@ func (*UntrustedInputChecker).onPropAccess
+//@   requires [C08 C11] folded(name)
